@@ -1,7 +1,8 @@
 import XsVerif.Driver.Util
 import XsVerif.Model.Limits
+import XsVerif.Model.RaisePolicy
 import XsVerif.Generated.C11
-open Lean XsVerif.Driver XsVerif.Limits XsVerif.Generated.C11
+open Lean XsVerif.Driver XsVerif.Limits XsVerif.Generated.C11 XsVerif.RaisePolicy
 
 namespace XsVerif.Driver.C11
 
@@ -33,6 +34,34 @@ def runSets (l : Limits) : List (Limit × Option Int) → List String × Limits
     | .ok l' => let (r, f) := runSets l' k; ("ok" :: r, f)
     | .typeError => let (r, f) := runSets l k; ("type" :: r, f)
     | .valueError => let (r, f) := runSets l k; ("value" :: r, f)
+
+def chainForest : Nat → Forest
+  | 0 => .nil 0
+  | n + 1 => .cons 0 (chainForest n) (.nil 0)
+
+def modeOf (s : String) : Except String Modes.Mode :=
+  match s with
+  | "strict" => pure .strict | "lax" => pure .lax | "skip" => pure .skip | _ => throw "mode"
+
+def kindStr : Kind → String
+  | .strictGuard => "strictGuard" | .strictWrapper => "strictWrapper" | .propagates => "propagates"
+  | .caught => "caught" | .buildTime => "buildTime" | .notBuilt => "notBuilt" | .abstractStub => "abstractStub"
+  | .invariant => "invariant" | .apiArgument => "apiArgument" | .limit => "limit" | .stop => "stop"
+  | .content => "content"
+
+def fireStr : Fire → String
+  | .silent => "silent" | .collected => "collected" | .escapes => "escapes"
+
+/-- the site of the regenerated table with this key and index -/
+def findSite (key : String) (idx : Nat) : Option RaiseSite :=
+  raiseSites.find? fun s => s.key == key && s.idx == idx
+
+def reachedOfSite (s : RaiseSite) (nested : Option Modes.Mode) : Option Reached :=
+  (kindOf s).map fun k => ⟨k, s.guard, s.cls, nested⟩
+
+def nestedOf (j : Json) : Option Modes.Mode :=
+  match j with
+  | .str "strict" => some .strict | .str "lax" => some .lax | .str "skip" => some .skip | _ => none
 
 def handle (j : Json) : Except String Json := do
   let op ← getStr j "op"
@@ -68,6 +97,43 @@ def handle (j : Json) : Except String Json := do
     match sites.find? (·.name == site), lookup n with
     | some s, some c => return Json.mkObj [("covers", catches s.handlers c)]
     | _, _ => return Json.mkObj [("covers", Json.null)]
+  | "site" =>
+    -- what the model says a raise statement does in a mode
+    let key ← getStr j "key"
+    let idx ← getNat j "idx"
+    let m ← modeOf (← getStr j "mode")
+    match findSite key idx with
+    | none => return Json.mkObj [("known", false)]
+    | some s =>
+      match kindOf s with
+      | none => return Json.mkObj [("known", true), ("kind", Json.null)]
+      | some k => return Json.mkObj [("known", true), ("kind", kindStr k), ("fire", fireStr (fire k s.guard m)),
+                                     ("resourceOrStop", k.resourceOrStop), ("reachable", s.reachable)]
+  | "run" =>
+    -- a descent as the sequence of raise statements it executed: [[key, idx, literal mode of the sub-descent | null], …]
+    let m ← modeOf (← getStr j "mode")
+    let items ← (← getArr j "script").toList.mapM fun x => do
+      let a ← x.getArr?
+      let key ← (a[0]?.getD Json.null).getStr?
+      let idx ← (a[1]?.getD Json.null).getNat?
+      pure (key, idx, nestedOf (a[2]?.getD Json.null))
+    let script := items.filterMap fun (key, idx, n) => (findSite key idx).bind (reachedOfSite · n)
+    if script.length != items.length then return Json.mkObj [("unknown_site", true)]
+    let r := XsVerif.RaisePolicy.run m script
+    return Json.mkObj [("raised", match r.raised with | some x => Json.str x.cls | none => Json.null),
+                       ("raisedKind", match r.raised with | some x => Json.str (kindStr x.kind) | none => Json.null),
+                       ("collected", r.collected.length)]
+  | "descent" =>
+    -- validation of a chain document of `depth` levels with `free` interpreter frames
+    let L ← getNat j "L"
+    let E ← getNat j "E"
+    let d ← getNat j "depth"
+    let free ← getNat j "free"
+    let tail ← getNat j "tail"
+    let f := chainForest d
+    return Json.mkObj [("guarded", recursionGuard),
+                       ("exc", match processExc recursionGuard L E free tail f with | some n => Json.str n | none => Json.null),
+                       ("fits", descendFits tail f free)]
   | _ => throw s!"unknown op {op}"
 
 end XsVerif.Driver.C11
